@@ -273,7 +273,12 @@ class Runner:
             with open(script, "w") as f:
                 f.write(self.script_text())
             self.prepare_files()
-            if self.sc.get("dash_c"):
+            if self.sc.get("on_pty"):
+                # the script runs with a terminal as 0/1/2: run_pipeline takes the tty path
+                # (job table, terminal hand-over) for every pipeline
+                from ptyrun import PtyShell
+                self.pty = PtyShell(sim, env_extra=self.shell_env(), argv=[script])
+            elif self.sc.get("dash_c"):
                 # one command line given with -c (words may span several lines inside quotes)
                 sim.spawn_shell(["-c", self.sc["lines"][0]["text"]], env_extra=self.shell_env())
             else:
@@ -661,6 +666,7 @@ class Runner:
         elif kind == "signaled":
             st.term = ("sig", val)
         if kind in ("exited", "signaled"):
+            st.kill_pending = False
             st.gone = True
             st.reaped = True
             self.stage_ended_io(st)
@@ -693,6 +699,14 @@ class Runner:
         r = st.role
         t = r.get("t", "ignorer")
         r0, r1 = pr[0], pr[1]
+        if self.sc.get("on_pty"):
+            # writability of the terminal depends on how fast its master side is drained, which is not a
+            # scheduled event: a write there is always enabled (and always completes, see to_tty)
+            pr = list(pr)
+            if isinstance(st.objs.get(1), Std):
+                r1 = pr[1] = W_READY
+            if isinstance(st.objs.get(2), Std):
+                pr[2] = W_READY
         steps = []
         if st.stopped:
             return steps
@@ -793,6 +807,8 @@ class Runner:
         Returns True when the shell is to be released now."""
         sim = self.sim
         while True:
+            if getattr(self, "pty", None) is not None:
+                self.pty.drain()     # what the last stage writes to the terminal must not back up
             self.refresh_free_children()
             choices = []
             releasable = False
@@ -814,6 +830,8 @@ class Runner:
             self.check_leaked_ends(polls)
             stopped = [st for st in self.live_puppets() if st.stopped]
             cont_pending = [st for st in self.live_puppets() if getattr(st, "cont_pending", False)]
+            # (a member killed while stopped: until the shell has been told, it still counts it as stopped)
+            cont_pending += [st for st in self.stages.values() if getattr(st, "kill_pending", False)]
             if stopped or (cont_pending and releasable):
                 # while a member is stopped -- or continued without the shell having been told yet --
                 # only the shell and the continuation can move, so that "all stages terminated"
@@ -821,6 +839,9 @@ class Runner:
                 choices = [c for c in choices if c[0] == "shell"]
                 for st in stopped:
                     choices.append(("cont", st))
+                    if self.sc.get("externals"):
+                        # a stopped member may also be killed outright: it is then terminated, which is unambiguous
+                        choices.append(("killstopped", st))
             else:
                 for i, x, st in self.pending_externals():
                     choices.append(("ext", i, x, st))
@@ -842,6 +863,11 @@ class Runner:
                 self.do_step(c[1], c[2])
             elif c[0] == "cont":
                 self.signal_stage(c[1], signal.SIGCONT, "cont")
+            elif c[0] == "killstopped":
+                c[1].stopped = False
+                c[1].kill_pending = True
+                self.signal_stage(c[1], signal.SIGKILL, "kill-while-stopped")
+                sim.probe("member_killed_while_stopped")
             else:
                 self.do_external(c[1], c[2], c[3])
             if shell_blocked is not None:
@@ -881,6 +907,7 @@ class Runner:
         for c in choices:
             if c[0] == "cont":
                 return c
+        choices = [c for c in choices if c[0] != "killstopped"] or choices
         for c in choices:
             if c[0] == "shell":
                 return c
@@ -919,6 +946,11 @@ class Runner:
         G = st.group
         return o is st.hs or o is G.cap_out or o is G.cap_err
 
+    def to_tty(self, st, fd):
+        """the descriptor is the terminal itself (script running on a pty): whoever drains the
+        master side is not an actor, so a write there has to complete"""
+        return " all" if (self.sc.get("on_pty") and isinstance(st.objs.get(fd), Std)) else ""
+
     def do_step(self, st, step):
         sim = self.sim
         pup = st.pup
@@ -938,7 +970,7 @@ class Runner:
         if step == "write":
             chunk = r.get("chunk", 4096)
             n = min(chunk, r["n"] - st.written)
-            rep = pup.rpc("write 1 %d %d %d" % (n, r["seed"], st.written)).split()
+            rep = pup.rpc("write 1 %d %d %d%s" % (n, r["seed"], st.written, self.to_tty(st, 1))).split()
             if rep[0] == "wrote":
                 done = int(rep[1])
                 self.model_write(st, stream_bytes(r["seed"], st.written, done))
@@ -964,9 +996,9 @@ class Runner:
                 data = stream_bytes(wspec["seed"], 0, wspec["n"])
             part = data[st.woff:st.woff + r.get("chunk", 65536)]
             if "hex" in wspec:
-                rep = pup.rpc("writehex %d %s" % (fd, part.hex())).split() if part else ["wrote", "0", "0"]
+                rep = pup.rpc("writehex %d %s%s" % (fd, part.hex(), self.to_tty(st, fd))).split() if part else ["wrote", "0", "0"]
             else:
-                rep = pup.rpc("write %d %d %d %d" % (fd, len(part), wspec["seed"], st.woff)).split() if part else ["wrote", "0", "0"]
+                rep = pup.rpc("write %d %d %d %d%s" % (fd, len(part), wspec["seed"], st.woff, self.to_tty(st, fd))).split() if part else ["wrote", "0", "0"]
             if rep[0] == "wrote":
                 done = int(rep[1])
                 self.model_write(st, part[:done], fd)
@@ -985,7 +1017,7 @@ class Runner:
             else:
                 raise HarnessError("puppet reply %r" % rep)
         elif step == "fwd":
-            rep = pup.rpc("writebuf 1").split()
+            rep = pup.rpc("writebuf 1%s" % self.to_tty(st, 1)).split()
             if rep[0] == "wrote":
                 done = int(rep[1])
                 self.model_write(st, bytes(st.buf[:done]))
